@@ -95,7 +95,7 @@ def instances(tier, seed):
     models = [("s", "s"), ("s", "s", "s"), ("e", "e", "e"), ("s", "w", "s"), ("m", "s"), ("e", "u", "e")] if tier == "quick" else \
         [("s", "s"), ("s", "s", "s"), ("e", "e", "e"), ("s", "w", "s"), ("m", "s"), ("e", "u", "e"), ("s", "s", "s", "s"), ("e", "v", "e"), ("s", "m", "s"), ("e", "e", "e", "e")]
     algos = ["Hopcroft-Karp", "Hungarian", "qr"]
-    per_model = 18 if tier == "quick" else 160
+    per_model = 18 if tier == "quick" else 70     # thorough: ~2000 instances, sized for about half an hour on 16 cores
 
     def add(kinds, table, algo, swaps=(), offset=True, dup=False):
         out.append(dict(kinds=kinds, table=[list(t) for t in table], algo=algo, swaps=list(swaps), offset=offset,
@@ -127,8 +127,8 @@ def instances(tier, seed):
         tables = tables[:per_model]
         for ti, tb in enumerate(tables):
             for algo in algos:
-                if algo == "qr" and (len(tb) + n > 5 and tier == "quick" or len(tb) > 3):
-                    continue
+                if algo == "qr" and (len(tb) + n > 5 and tier == "quick" or len(tb) > 3 or (n >= 4 and len(tb) > 2)):
+                    continue      # pivoted-QR contract: permutation and rank are solver-chosen, the forks grow with sites x terms
                 add(kinds, tb, algo, offset=(ti % 2 == 0))
             # swaps on a subset
             if ti % 4 == 0 and n >= 2 and "m" not in kinds and len(tb) <= 5:
@@ -137,6 +137,15 @@ def instances(tier, seed):
                 if n >= 3 and ti % 8 == 0:
                     add(kinds, tb, "Hopcroft-Karp", swaps=[0, 1], offset=False)
                     add(kinds, tb, "Hungarian", swaps=[1, 0], offset=False)
+    # float build: complex coefficients with duplicate rows / an explicit identity next to an offset (the merged table goes through dtype-sensitive buffers)
+    for kinds in (("s", "s", "s"), ("s", "w", "s")):
+        nz = [t for t in all_terms(kinds) if any(t)]
+        n = len(kinds)
+        for tb in ([nz[1], nz[5], nz[1]], [nz[2], nz[2], nz[7], tuple([0] * n)], [nz[3], nz[4], nz[3], nz[4], nz[9]]):
+            for algo in algos:
+                out.append(dict(kinds=kinds, table=[list(t) for t in tb], algo=algo, swaps=[], offset=True, cplx_factors=True, concrete=True,
+                                label="[float build] mpo %s %s complex factors, duplicate rows table=%s" % ("".join(kinds), algo, str([list(t) for t in tb]).replace(" ", "")),
+                                key="mpo/%s/floatbuild-complex" % algo))
     return out
 
 
@@ -269,6 +278,9 @@ def make_harness(P):
         model = Model(basis, [])
         table = [tuple(t) for t in P["table"]]
         fs = [ctx.real("f%d" % j, [1.3, -0.7, 0.45, 2.1, -1.9, 0.8, 1.1][j % 7]) for j in range(len(table))]
+        if P.get("cplx_factors"):
+            # float build only: complex coefficients (what the operator's dtype becomes is a dtype question the object backend cannot represent)
+            fs = [complex(f, [0.6, -1.5, 0.25, 0.9, -0.4, 1.2, -0.8][j % 7]) for j, f in enumerate(fs)]
         off = ctx.real("offset", 0.37) if P["offset"] else 0.0
         # magnitude assumptions: the deduplication drops terms below 1e-15 * max|f|; exactness is claimed when every
         # merged factor is exactly zero or clearly above that band
@@ -344,7 +356,7 @@ def make_harness(P):
             # ---- oracle
             dims = [b.nbas for b in basis]
             D = int(np.prod(dims))
-            ref = np.zeros((D, D), dtype=object if ctx.symbolic else float)
+            ref = np.zeros((D, D), dtype=object if ctx.symbolic else (complex if P.get("cplx_factors") else float))
             for j, t in enumerate(table):
                 mat = np.ones((1, 1))
                 for i, k in enumerate(t):
